@@ -190,8 +190,15 @@ def explore(ctx, res, replay=None):
                 add('spelling', {'m': b'a ' + w + b' 1\n' + w.swapcase() + b' ' + w[:-1]}, 'm')
             for kind, b in gen_bytes(ctx):
                 add(kind, {'m': b}, 'm')
-            for kind, files, main in gen_incl(ctx)[::7]:
+            for kind, files, main in gen_incl(ctx)[::3]:
                 add(kind, files, main)
+            # the label of the end-of-file token: the main file ends with an include, with nested includes, with blank lines
+            for files, main in (({'m': b'INCLUDE "a"\nINCLUDE "p"', 'a': b'x := 1\n', 'p': b'PROGRAM f DO\n x0 := 1\n\n\nEND'}, 'm'),
+                                ({'m': b'x := 1;\ninclude "p"\n\n\n', 'p': b'y := 2;\n\nz := 3'}, 'm'),
+                                ({'m': b'include "a"', 'a': b'include "b"\n', 'b': b'\n\n\nq := 1\n'}, 'm'),
+                                ({'m': b'include "a" // comment\n', 'a': b''}, 'm'),
+                                ({'m': b'include "a"\ninclude "b"', 'a': b'x := 1', 'b': b'// only a comment\n\n'}, 'm')):
+                add('eof_label', files, main)
             # when the DFA-equivalence obligation (Proofs_Flex.v) no longer checks: a distinguishing string found by a
             # search of the product of the translated tables and the rule list, evaluated inside Coq
             for w in dfa_counterexamples(ctx):
